@@ -876,10 +876,21 @@ class C16(Prop):
                     kinfo["n_mid"] = len(ab.objs)
                 return real_lp(old, new, modname=modname, visit_stack=visit_stack, cache=cache,
                                assume_type=assume_type, heed_hook=heed_hook)
+            real_cls = LP._LIVEPATCH_DISPATCH_TABLE[type]
+
+            def cls_spy(oldclass, newclass, *a, **kw):
+                # CPython may refuse the __bases__ assignment (layout change, inheritance cycle); with fixes/C16-D48.diff
+                # livepatch then returns the new class.  The model has no layout rules: such runs are not compared.
+                same = oldclass.__dict__.get("__slots__") == newclass.__dict__.get("__slots__")
+                r = real_cls(oldclass, newclass, *a, **kw)
+                if same and r is newclass:
+                    kinfo["bases_refused"] = True
+                return r
             # ---- the attempt -------------------------------------------------------
             _write(path, new_text, now)
             kinfo["mtime"] = repr(os.stat(path).st_mtime)
             LP.livepatch = spy
+            LP._LIVEPATCH_DISPATCH_TABLE[type] = cls_spy
             arg = m if case.get("via", "module") == "module" else (name if case["via"] == "name" else path)
             raised = None
             try:
@@ -889,6 +900,7 @@ class C16(Prop):
                 obs["raised_msg"] = str(e)[:120]
             finally:
                 LP.livepatch = real_lp
+                LP._LIVEPATCH_DISPATCH_TABLE[type] = real_cls
             obs["raised"] = raised
             n_mid = kinfo.get("n_mid", n_pre)
             kinfo["post"] = ab.redescribe(n_mid)
@@ -1127,7 +1139,7 @@ class C16(Prop):
             return "trivial"
         if k["unsupported"]:
             return "unsupported: " + ",".join(k["unsupported"])
-        if "__bases__ assignment" in (obs.get("raised_msg") or "") or obs.get("layout_changed"):
+        if "__bases__" in (obs.get("raised_msg") or "") or obs.get("layout_changed") or k.get("bases_refused"):
             return "CPython layout check on __bases__ (not modelled)"
         if obs.get("exec_fails") is None and "objs" not in k:
             return "livepatch was not reached"
